@@ -11,6 +11,7 @@ mod l1;
 mod l2;
 mod props;
 mod rng;
+mod simgeno;
 mod simio;
 
 use harness::{Prop, ReplayFile, Tier};
@@ -19,6 +20,8 @@ macro_rules! dispatch {
     ($id:expr, $f:ident $(, $arg:expr)*) => {
         match $id {
             "C07" => $f(&props::c07::C07 $(, $arg)*),
+            "C10" => $f(&props::c10::C10 $(, $arg)*),
+            "C11" => $f(&props::c11::C11 $(, $arg)*),
             "C16" => $f(&props::c16::C16 $(, $arg)*),
             "C19" => $f(&props::c19::C19 $(, $arg)*),
             "C18" => $f(&props::c18::C18 $(, $arg)*),
